@@ -707,6 +707,8 @@ pub struct Sector {
     pub ne: usize,
     pub om: Vec<Q>,
     pub j: Vec<Q>,
+    /// cumulative boundaries per mask, precomputed
+    pub iv: Vec<Vec<(usize, Q, Q)>>,
 }
 
 #[derive(Clone, Debug)]
@@ -731,7 +733,14 @@ impl Sector {
     pub fn new(go: &GO) -> Option<Sector> {
         let om = go.omega_table();
         let j = go.j_table(&om)?;
-        Some(Sector { ne: go.ne, om, j })
+        let mut s = Sector { ne: go.ne, om, j, iv: vec![] };
+        let n = 1usize << go.ne;
+        let mut iv = Vec::with_capacity(n);
+        for m in 0..n {
+            iv.push(if m == 0 { vec![] } else { s.compute_intervals(m as u64) });
+        }
+        s.iv = iv;
+        Some(s)
     }
     /// exact probabilities p_e of removing e from `mask`, in index order
     pub fn probs(&self, mask: u64) -> Vec<(usize, Q)> {
@@ -745,7 +754,10 @@ impl Sector {
             .collect()
     }
     /// cumulative boundaries (edge, c_lo, c_hi)
-    pub fn intervals(&self, mask: u64) -> Vec<(usize, Q, Q)> {
+    pub fn intervals(&self, mask: u64) -> &Vec<(usize, Q, Q)> {
+        &self.iv[mask as usize]
+    }
+    fn compute_intervals(&self, mask: u64) -> Vec<(usize, Q, Q)> {
         let mut c = Q::zero();
         self.probs(mask)
             .into_iter()
@@ -760,13 +772,13 @@ impl Sector {
     /// narrow for f64)
     pub fn u_for(&self, mask: u64, edge: usize, rng: &mut Rng) -> Option<f64> {
         for (e, lo, hi) in self.intervals(mask) {
-            if e == edge {
-                let (l, h) = (qf(&lo), qf(&hi));
+            if *e == edge {
+                let (l, h) = (qf(lo), qf(hi));
                 let t = rng.range(0.25, 0.75);
                 let u = l + (h - l) * t;
                 let uq = q(u);
                 let rel = 1e-6;
-                if uq > &lo + (&hi - &lo) * q(rel) && uq < &hi - (&hi - &lo) * q(rel) && u < 1.0 && u > 0.0 {
+                if uq > lo + (hi - lo) * q(rel) && uq < hi - (hi - lo) * q(rel) && u < 1.0 && u > 0.0 {
                     return Some(u);
                 }
                 return None;
@@ -799,7 +811,7 @@ impl Sector {
                 let uq = q(u);
                 let iv = self.intervals(mask);
                 let mut chosen = None;
-                for (e, _lo, hi) in &iv {
+                for (e, _lo, hi) in iv {
                     let dist = qf(&((&uq - hi).abs() / hi));
                     if dist < w.min_boundary_dist {
                         w.min_boundary_dist = dist;
